@@ -11,7 +11,7 @@ Definition E_FUNCTION : Z := 2.      (* the function body returned an error *)
 Definition E_NOT_MODELLED : Z := 99. (* the body of this descriptor has no model: evaluation is not claimed *)
 Definition P_VAR : Z := 1.           (* variable level/index outside the variable context *)
 Definition P_ARGS : Z := 2.          (* values[i] / argValues[index] out of range *)
-Definition P_DIVZERO : Z := 3.       (* integer division by zero *)
+Definition P_DIVZERO : Z := 3.       (* integer division by zero: the pinned tree panicked; main returns an error (E_FUNCTION) *)
 Definition P_LAYOUT : Z := 4.        (* ObjectLayoutFixer reached a nil mapping *)
 
 (* Go reads struct fields of octosql.Value without looking at TypeID; values are built by the New*
@@ -74,14 +74,14 @@ Definition apply_body (b : body) (vs : list value) : outcome value :=
   | BSubInt => arg2 vs (fun x y => Ok (VInt (wrap64 (vint x - vint y))))
   | BNegInt => arg1 vs (fun x => Ok (VInt (wrap64 (- vint x))))
   | BMulInt => arg2 vs (fun x y => Ok (VInt (wrap64 (vint x * vint y))))
-  | BDivInt => arg2 vs (fun x y => if vint y =? 0 then Panic P_DIVZERO else Ok (VInt (wrap64 (Z.quot (vint x) (vint y)))))
+  | BDivInt => arg2 vs (fun x y => if vint y =? 0 then Err E_FUNCTION else Ok (VInt (wrap64 (Z.quot (vint x) (vint y)))))
   | BAbsInt => arg1 vs (fun x => if vint x >? 0 then Ok x else Ok (VInt (wrap64 (vint x * -1))))
   | BAddDur => arg2 vs (fun x y => Ok (VDur (wrap64 (vdur x + vdur y))))
   | BSubDur => arg2 vs (fun x y => Ok (VDur (wrap64 (vdur x - vdur y))))
   | BNegDur => arg1 vs (fun x => Ok (VDur (wrap64 (- vdur x))))
   | BMulDurInt => arg2 vs (fun x y => Ok (VDur (wrap64 (vdur x * vint y))))
   | BMulIntDur => arg2 vs (fun x y => Ok (VDur (wrap64 (vdur y * vint x))))
-  | BDivDurInt => arg2 vs (fun x y => if vint y =? 0 then Panic P_DIVZERO else Ok (VDur (wrap64 (Z.quot (vdur x) (vint y)))))
+  | BDivDurInt => arg2 vs (fun x y => if vint y =? 0 then Err E_FUNCTION else Ok (VDur (wrap64 (Z.quot (vdur x) (vint y)))))
   | BConcat => arg2 vs (fun x y => Ok (VStr (vstr x ++ vstr y)))
   | BLenStr => arg1 vs (fun x => Ok (VInt (Z.of_nat (length (vstr x)))))
   | BIntOfInt => arg1 vs (fun x => Ok x)
